@@ -5,7 +5,7 @@ from lib import cstr, clist
 
 CELLS = ["c%d", "c%d {{a|x}}", "c%d [[l|t]]", "'''c%d'''", "''c%d''", "c%d <b>h</b>", "c%d word word", "c%d [http://x.y e]",
          "c%d {{a|[[l]]}}", "c%d", "c%d 12", "c%d <span class=\"s\">q</span>"]
-ANAMES = ["class", "style", "id", "colspan", "data-x", "lang", "rowspan", "title"]
+ANAMES = ["class", "style", "id", "colspan", "data-x", "lang", "rowspan", "title", "data_kind", "row.no", "cell~ref", "xml:lang"]
 AVALS = ["x", "wikitable", "2", "a-b", "a_b", "r.s", "Zz9", ""]
 INLINE_TAGS_SKIP = {"pre", "nowiki", "math", "hiero", "chem", "ce", "gallery", "ref", "references", "section", "noinclude",
                     "includeonly", "onlyinclude", "syntaxhighlight", "source", "score", "templatestyles", "poem", "imagemap",
@@ -222,7 +222,12 @@ def run(run):
             els = [e for e in find_kind(tree, "HTML") if e.get("s") == exp["tag"]]
             ok = len(els) >= 1 and sorted(els[0].get("at", {}).items()) == sorted((k, v) for k, v in exp["attrs"]) \
                 and exp["id"] in ids_of(els[0])
-            if not ok:
+            import re as _re
+            odd = [k for k, _ in exp["attrs"] if not _re.fullmatch(r"[-a-zA-Z0-9:]+", k)]
+            if not ok and odd and not els:
+                run.property_failure("c03:html:attribute-name-outside-tokenizer-class",
+                                     "<%s> with attribute name(s) %r is not recognised as an element" % (exp["tag"], odd), t)
+            elif not ok:
                 run.property_failure("c03:html:%s" % exp["tag"], "element <%s> parsed as %s" % (exp["tag"], json.dumps(tree)[:400]), t)
         elif kind in ("link", "template"):
             k = "LINK" if kind == "link" else "TEMPLATE"
